@@ -111,6 +111,8 @@ mod framed;
 pub mod mqttbytes;
 mod state;
 pub mod v5;
+#[cfg(rumqtt_verif)]
+pub mod verif;
 
 #[cfg(any(feature = "use-rustls-no-provider", feature = "use-native-tls"))]
 mod tls;
